@@ -19,6 +19,7 @@ var allFaultKinds = []string{
 	"cloud-stale-tags", "cloud-settags-fail", "cloud-destroy-fail", "cloud-destroy-response-lost",
 	"vm-never-boots", "vm-broken-after", "vm-report-broken", "vm-crunch-run-missing",
 	"proc-crash-early", "proc-crash-running", "proc-unkillable", "arv-mount-deadlock",
+	"dispatcher-stall",
 }
 
 var allEventKinds = []string{
@@ -625,6 +626,15 @@ func scenC15(w *vsim.World, spec *vsim.Spec) {
 	if s.settled(true) {
 		w.Probe("run-settled")
 		w.Note("settle", fmt.Sprint(time.Since(quietStart).Round(time.Second)))
+		for _, b := range []time.Duration{time.Minute, 5 * time.Minute, 15 * time.Minute, 30 * time.Minute, time.Hour, 6 * time.Hour} {
+			if time.Since(quietStart) <= b {
+				w.Probe("settled-within-" + b.String())
+				break
+			}
+		}
+		if f := float64(time.Since(quietStart)) / float64(B); f > 0.25 {
+			w.Probe("settled-after-more-than-a-quarter-of-the-bound")
+		}
 	}
 	s.cloud.reap()
 	since := time.Since(quietStart).Round(time.Second)
